@@ -214,6 +214,11 @@ func c08EstRun(rc *RunCtx, p *C08Params) {
 			}
 			data, kind = keyedMalformed(hr, x.ref12, k13, epoch, toServer, peerCID, uint64(1000+j))
 			kind = "keyed:" + kind
+		case p.Mode == "C":
+			// records that claim no protection at all (epoch 0), which an established session has no
+			// use for: whoever can spoof the peer's address can write them without any key
+			spoofSeq++
+			data, kind = cleartextRecord(hr, spoofSeq)
 		case p.Mode == "F":
 			// a reassembly flood against an established session: cleartext fragments of future
 			// handshake messages, which such a session has no use for
@@ -300,6 +305,9 @@ func c08EstRun(rc *RunCtx, p *C08Params) {
 	if p.Mode == "F" {
 		what, tag = "cleartext fragments of future handshake messages ("+p.Flood+")", ":after-fragment-flood"
 	}
+	if p.Mode == "C" {
+		what, tag = "cleartext (epoch 0) records", ":after-cleartext-records"
+	}
 	for i := 0; i < 2; i++ {
 		if !write("c", 200+i, 30+i) || !write("s", 200+i, 30+i) {
 			rc.Violate("service-lost:write"+tag, "after %d %s a genuine Write failed", p.N, what)
@@ -359,4 +367,39 @@ func freshRecordNumbers(d []byte, next *uint64) []byte {
 	}
 
 	return data
+}
+
+// cleartextRecord builds one well-formed epoch-0 record: alerts of every level, application data,
+// ACKs naming protected records, change_cipher_spec, heartbeat-like unknown types.
+func cleartextRecord(r *rand.Rand, seq uint64) ([]byte, string) {
+	var ctype byte
+	var body []byte
+	kind := ""
+	switch r.IntN(7) {
+	case 0:
+		ctype, body, kind = CTAlert, []byte{2, []byte{10, 20, 40, 47, 50, 80, 90, 0}[r.IntN(8)]}, "fatal-alert"
+	case 1:
+		ctype, body, kind = CTAlert, []byte{1, 0}, "close-notify"
+	case 2:
+		ctype, body, kind = CTAlert, []byte{1, []byte{90, 100, 41}[r.IntN(3)]}, "warning-alert"
+	case 3:
+		ctype, body, kind = CTAppData, []byte("cleartext application data"), "application-data"
+	case 4:
+		for e := uint64(1); e <= 4; e++ {
+			for q := uint64(0); q < 8; q++ {
+				body = append(append(body, u64(e)...), u64(q)...)
+			}
+		}
+		body = append([]byte{byte(len(body) >> 8), byte(len(body))}, body...)
+		ctype, kind = CTACK, "ack"
+	case 5:
+		ctype, body, kind = CTChangeCipherSpec, []byte{1}, "change-cipher-spec"
+	default:
+		ctype, body, kind = byte([]int{24, 27, 19, 99}[r.IntN(4)]), []byte{1, 0, 0}, "unknown-type"
+	}
+	rec := []byte{ctype, 0xfe, 0xfd, 0, 0}
+	rec = append(rec, u64(seq)[2:]...)
+	rec = append(rec, byte(len(body)>>8), byte(len(body)))
+
+	return append(rec, body...), "cleartext-" + kind
 }
